@@ -27,7 +27,7 @@ func init() {
 		},
 		Quick:    250000,
 		Thorough: 4000000,
-		Require:  []string{"keepalive.pingSent", "tick.exactlyAtPeriod", "tick.foundInactive", "pong.superseded"},
+		Require:  []string{"handshake.slow", "received.peerPing", "received.strayAck", "keepalive.pingSent", "tick.exactlyAtPeriod", "tick.foundInactive", "pong.superseded"},
 		Assume: []string{
 			"keep-alive counts consecutive inactivity detections (a tick with now > last receive + period) since the last reset; the literal 'more than maxRetries pings unanswered' is never satisfied by any implementation that sends maxRetries pings",
 			"a pong for a superseded ping is accepted as either a reset or not (it is a received message; the statement does not say which wins)",
